@@ -26,6 +26,8 @@ def run(ctx, chk):
     chk.rule("C16.R4", "syntax diagnostics use the error's own position", floor=1)
     chk.rule("C16.R6", "every assembler diagnostic cites a location of the production that raises it", floor=40)
     chk.rule("C16.R5", "while the source is locked (macro expansion) the recorded source position cannot change", floor=2)
+    chk.rule("C16.R7", "position lookups are functions of the position alone (their objects hold no interior-mutable state)", floor=1)
+    position_lookup_rule(ctx, chk)
     for nt_data in GA.g["nonterminals"]:
         nt = nt_data["name"]
         for k, p in enumerate(nt_data["productions"]):
@@ -331,3 +333,41 @@ def driver_message_positions(ctx, chk, drv):
             else:
                 chk.violation("C16.R3", "CMDDriver::run", "position-of-other-instruction",
                               f"the position helper is called with {[show(x) for x in passed if x[0] != 'ref'][:2]}, not with the index of the instruction being executed", where)
+
+
+def position_lookup_rule(ctx, chk):
+    """R7.  The line shown for a position is computed by lookup functions of the shape (&T, usize) -> usize / (usize, ..)
+    on a local type T (LexerHelper::get_newline_before, get_bounds, ..).  For the cited line to be that of the position,
+    such a lookup must be a function of (the immutable content of T, the position): T must be Freeze (no Cell / RefCell /
+    atomic inside, so nothing can be remembered from one lookup to the next through &T) and the receiver a shared
+    reference.  Type facts of the compiler (engine T); the shape, not the names, selects the functions."""
+    import re
+    n = 0
+    for which in ("lib", "bin"):
+        m = ctx.facts.mir(which)
+        adts = {a["name"]: a for a in m["adts"]}
+        for s in m["sigs"]:
+            ins = s.get("inputs") or []
+            out = (s.get("output") or "").replace(" ", "")
+            if len(ins) != 2 or ins[1] != "usize" or not re.fullmatch(r"usize|\((usize,?)+\)|std::option::Option<\(?(usize,?)+\)?>", out):
+                continue
+            recv = ins[0]
+            if not recv.startswith("&"):
+                continue
+            core = re.sub(r"^&('\w+ )?(mut )?", "", recv)
+            a = adts.get(core) or adts.get(core.replace("emulator_8086_lib::", ""))
+            short = s["name"].split("::")[-1]
+            if a is None:
+                if re.fullmatch(r"\[usize\]|std::vec::Vec<usize>", core):
+                    chk.ok("C16.R7", f"{short}({core})", "lookup in a plain table of offsets")
+                continue
+            n += 1
+            if recv.startswith("&mut"):
+                chk.violation("C16.R7", s["name"], "lookup-through-mutable-receiver", f"{s['name']} looks a position up through `{recv}`: a lookup can change the object it reads", s["name"])
+            elif a.get("freeze") is not True:
+                chk.violation("C16.R7", s["name"], "lookup-on-interior-mutable-state",
+                              f"{s['name']} answers position lookups from {core}, which is not Freeze (it contains a Cell/RefCell/atomic): the answer for a position can depend on "
+                              f"the lookups made before it, so a message can cite another line than the one the position is in", s["name"],
+                              witness="two lookups in descending order of position")
+            else:
+                chk.ok("C16.R7", f"{short}({core.split('::')[-1]})", "shared receiver, Freeze type: the answer depends on the position and the immutable table only")
